@@ -13,7 +13,8 @@ TECHNIQUE = ('runtime monitoring: grammar-directed workload with derivation-tree
 LEVEL_TEXT = ('Each generated string is parsed by the real formula() and its atoms, charge and density are compared with '
               'the denotation of the derivation tree it was rendered from (a model that never parses); every malformed '
               'sibling must raise. Reach is by workload diversity (all 17.7k nameable atoms, nesting to depth 60 in the '
-              'thorough tier, all separator and count spellings, public and private tables); held means held on the strings generated.')
+              'thorough tier, all separator and count spellings, public and private tables); held means held on the strings generated.'
+              ' Added in rounds 4-7 of the seeded-break campaign: the documented secondary routes (parse_formula, parser objects from formula_grammar, calls without a table argument), blank strings, formulas of 130-5000 groups, nesting depths 120/250 (known finding above ~105 levels), every malformed string tried twice.')
 LEVEL_NOTE = ('Trusted: the generator/renderer in pvmon/gen/formulas.py (rendering rules keep strings unambiguous under the '
               'documented grammar), pvmon/ref/masses.py for densities, CPython Fraction/float. Nesting beyond Python\'s '
               'recursion limit is out of reach.')
